@@ -16,16 +16,16 @@ CLAIMS = {
     "C04": dict(
         text="Unbounded Lean theorems over any commutative additive monoid: marginalize_eq_spec (for every valid axis list in any order the result is the sum over the removed axes, "
              "remaining axes in original order: the sort + `original - removed` shift is proved correct for any number of axes and unequal lengths), permutation invariance, "
-             "stepwise = joint, mass, keep = remove complement, the three errors in the code's order; model compared exactly with Spectrum::marginalize on all subsets x all orders of exhaustive small shapes.",
+             "stepwise = joint, mass, keep = remove complement, the three errors in the code's order, and marginal_is_spectrum (the marginal of a call set's spectrum is the spectrum of the same sites with the removed populations ignored); model compared exactly with Spectrum::marginalize on all subsets x all orders of exhaustive small shapes.",
         note=NOTE_COMMON + " The create/marginalize relation is stated with the create model (C01/C11 theorems) and explored through the CLI there; f64 summation order is outside the theorems (integer data is used so sums are exact)."),
     "C13": dict(
         text="Lean theorems: view_eq_chain (any option combination = four chained single-option runs in the order marginalize > project > mask > normalize), mask_spec "
              "(exactly the all-zero and all-maximum entries), normalize_spec (sums to one, ratios preserved), view_noop; the pipeline model (transcribed View::run) is compared with the real "
-             "binary for all 16 option subsets, single vs chained through npy pipes.",
+             "binary for all 16 option subsets, single vs chained through npy pipes, npy and text output.",
         note=NOTE_COMMON + " Lossless npy in between is C07/C15's theorem; binary64 evaluation of projection/normalisation is compared within 2^-30 relative, not proved. clap's option parsing is exercised, not modelled."),
     "C03": dict(
         text="Unbounded Lean theorems over any characteristic-0 field: project_eq_spec (the odometer + weighted accumulation computes y[t] = sum_f x[f] prod_j Hypergeom(t_j; n_j, f_j, m_j) for any number of axes), "
-             "hyper_sum_one (Vandermonde), project_mass, project_nonneg, project_id, hyper_compose / project_project (two steps = direct), and the validation logic; the model is compared with "
+             "hyper_sum_one (Vandermonde), project_mass, project_nonneg, project_id, hyper_compose / project_project (two steps = direct), project_marginalize_comm (projection commutes with marginalization), and the validation logic; the model is compared with "
              "Spectrum::project on all admissible targets of exhaustive small shapes and with hypergeometric_pmf at sizes up to 5000 chromosomes (exact rational reference).",
         note=NOTE_COMMON + " Partial clause: finiteness / accuracy of the binary64 evaluation at thousands of chromosomes is explored by coefficient probes (exact reference, 2^-30 relative), not proved."),
     "C01": dict(
@@ -55,7 +55,7 @@ CLAIMS = {
              "permutation invariance; per-record site-kind sequences from the real reader compared with the model over all ordered kind pairs, splits and permutations.",
         note=NOTE_COMMON + " With projection the implementation's binary64 sums depend on order in the last bits; compared within 2^-30 relative."),
     "C12": dict(
-        text="PARTIAL (proof of the logic + exploration of the runtime). Proved in Lean: detection logic (gzip magic, BCF magic inside/outside gzip), the detection prefix is independent of the read schedule, `sfs create` factors through the decoded call set for all four containers "
+        text="PARTIAL (proof of the logic + exploration of the runtime). Proved in Lean: detection logic (gzip magic, BCF magic inside/outside gzip), the detection prefix is independent of the read schedule and leaves the reader right behind it, `sfs create` over any chunk schedule equals `sfs create` on the whole byte string (create_schedule_free) and factors through the decoded call set for all four containers "
              "(codecs as parameters with explicit hypotheses), the shape ignores map iteration order. Explored, not proved: noodles' multithreaded BGZF reader, OS transport, hash seeds — each call set is executed 64-200 times "
              "over containers x transports x thread counts x BGZF layouts x repeats and all stdout bytes / exit classes must coincide and equal the model's output.",
         note=NOTE_COMMON + " Thread interleavings and block scheduling live in noodles-bgzf and the OS: no Lean model of this size can exhibit them; repetition explores them."),
@@ -90,7 +90,7 @@ CLAIMS.update({
     "C06": dict(
         text="Unbounded Lean theorems over any field of characteristic zero: create_is_spectrum + linear_stat (every statistic that is a weighted sum over the cells of the created spectrum is the sum of the weight over the complete sites of the call set), "
              "and from it sum / S / pi (pairs of differing chromosomes, diffPairs_eq) / pi_xy / f2 / f3 / f4 / Hudson's Fst / KING / R0 / R1 equal their genotype-level definitions for every call set, any number of populations of any sizes; "
-             "for every count spectrum of n chromosomes Watterson's theta, pi, Tajima's D and Fu and Li's D (as numerator / variance pairs) equal the published formulas (ordered field for a_n > 0). "
+             "for every count spectrum of n chromosomes Watterson's theta, pi, Tajima's D and Fu and Li's D (as numerator / variance pairs) equal the published formulas (ordered field for a_n > 0); counts below 2^53 pass through the precision-0 text pipe between `create` and `stat` bit for bit (create_stdout_reads_back). "
              "The transcription (14 statistics incl. take/skip windows, frequencies i/(len-1), normalisation in the CLI dispatch) is compared with the real code on spectra with n up to 500-900, and the genotype-level definitions are evaluated independently on generated call sets.",
         note=NOTE_COMMON + " Partial clause: binary64 evaluation (sums, harmonic numbers, exp/ln binomial, sqrt) is compared within 2^-30 relative to the scale of the sums, not proved. The theorems use field semantics (x/0 = 0); degenerate shapes where the code returns NaN/inf are C17's subject."),
     "C14": dict(
@@ -104,6 +104,6 @@ CLAIMS.update({
     "C17": dict(
         text="PARTIAL (proof over sfs's own transcribed code + exploration of third-party parsing). Lean theorems for every shape and input: once Array::new accepted a shape no product of a contiguous range of axis lengths overflows 64 bits (strides, element counts, running quotients; the zero-masked case of fix 004eece included), "
              "spectra are only read at in-range positions (pi_xy cells, the nine kinship cells behind the 3x3 test, theta classes 1 <= i < n so n - i and C(n,2) are safe, shape[0]/shape[1] behind the dimension test), the statistic dispatch ends in a value or exactly the dimension / shape error, hypergeometric arguments do not underflow behind the zero test, "
-             "-p values saturate, the npy padding is 1..64 and an oversized header is an error value, population ids are contiguous so Map::shape cannot unwrap None. Explored: outcome classes of the real code over the full statistic x degenerate-shape grid, short / absurd inputs, option bounds and a mutation stream over all input formats; never a panic except at the 14 listed noodles-bcf sites.",
+             "-p values saturate, Input::new refuses exactly the two contradictory path/stdin situations, the npy padding is 1..64 and an oversized header is an error value, population ids are contiguous so Map::shape cannot unwrap None. Explored: outcome classes of the real code over the full statistic x degenerate-shape grid, short / absurd inputs, option bounds and a mutation stream over all input formats; never a panic except at the 14 listed noodles-bcf sites.",
         note=NOTE_COMMON + " The Lean model is total, so panics are ruled out site by site through guard theorems, not by a panic-outcome model; sites inside noodles / clap / std are outside the theorems. usize quantities that would need > 2^32 array elements to overflow (n^2 in Tajima's b2) are assumed out of reach. Known findings F18-F33 (dependency) are not repaired."),
 })
